@@ -47,7 +47,12 @@ PINS = ["gwcs/api.py::GWCSAPIMixin._remove_quantity_output", "gwcs/api.py::GWCSA
         "gwcs/coordinate_frames.py::CelestialFrame.coordinates", "gwcs/coordinate_frames.py::CelestialFrame.coordinate_to_quantity",
         "gwcs/coordinate_frames.py::SpectralFrame.coordinates", "gwcs/coordinate_frames.py::SpectralFrame.coordinate_to_quantity",
         "gwcs/coordinate_frames.py::TemporalFrame.coordinates", "gwcs/coordinate_frames.py::TemporalFrame._convert_to_time",
-        "gwcs/coordinate_frames.py::TemporalFrame.coordinate_to_quantity", "gwcs/coordinate_frames.py::Frame2D.coordinates"]
+        "gwcs/coordinate_frames.py::TemporalFrame.coordinate_to_quantity", "gwcs/coordinate_frames.py::Frame2D.coordinates",
+        "gwcs/coordinate_frames.py::Frame2D.coordinate_to_quantity", "gwcs/coordinate_frames.py::StokesFrame.coordinates",
+        "gwcs/coordinate_frames.py::StokesFrame.coordinate_to_quantity", "gwcs/coordinate_frames.py::CoordinateFrame.unit",
+        "gwcs/coordinate_frames.py::CoordinateFrame.__init__", "gwcs/coordinate_frames.py::CelestialFrame.__init__",
+        "gwcs/coordinate_frames.py::SpectralFrame.__init__", "gwcs/coordinate_frames.py::TemporalFrame.__init__",
+        "gwcs/coordinate_frames.py::Frame2D.__init__", "gwcs/coordinate_frames.py::StokesFrame.__init__"]
 HEADER = ("From Coq Require Import QArith List Bool. Import ListNotations.\n"
           "From GW Require Import C16.Units C16.UnitsQ.\nOpen Scope Q_scope.\n")
 MIXED = 0.2      # share of generated WCSs with mixed unit-ness (enabled once /repo handles them)
